@@ -3,6 +3,7 @@ package c17
 
 import (
 	"fmt"
+	"io"
 	"net/http"
 	"net/http/httptest"
 	"net/url"
@@ -70,7 +71,7 @@ func build() {
 	write(secretAbs, m3)
 	write(filepath.Join(parent, "sibling", "leak.js"), m4)
 	write(filepath.Join(parent, "rootx.css"), m4) // shares the root's name as a prefix
-	root2 = filepath.Join(parent, "root.") // its name differs from the first root's by a trailing dot only
+	root2 = filepath.Join(parent, "root.")        // its name differs from the first root's by a trailing dot only
 	for _, f := range []string{"a.css", "b.js", "f1.txt", "index.html", "sub/c.css", "only2.js"} {
 		write(filepath.Join(root2, filepath.FromSlash(f)), "ROOT2FILE<"+f+">"+tag)
 	}
@@ -429,6 +430,11 @@ func prop(t *rapid.T) {
 		var pv any
 		func() {
 			defer func() { pv = recover() }()
+			if len(raw)%2 == 1 {
+				// a writer shaped like a real connection's: it also offers io.ReaderFrom (sendfile)
+				r.ServeHTTP(rfRecorder{rec}, req)
+				return
+			}
 			r.ServeHTTP(rec, req)
 		}()
 		ev.Eval()
@@ -506,4 +512,11 @@ type joinFS string
 
 func (d joinFS) Open(name string) (http.File, error) {
 	return os.Open(filepath.Join(string(d), filepath.FromSlash(name)))
+}
+
+// rfRecorder is a ResponseRecorder that is an io.ReaderFrom as well, like net/http's own response writer.
+type rfRecorder struct{ *httptest.ResponseRecorder }
+
+func (r rfRecorder) ReadFrom(src io.Reader) (int64, error) {
+	return io.Copy(struct{ io.Writer }{r.ResponseRecorder}, src)
 }
